@@ -67,6 +67,23 @@ func c09cid(k []byte) []byte {
 	return d[:]
 }
 
+// c09storedValue: what the harness stores for a key it marks "stored": empty, one byte or 33 bytes, chosen by the key
+// itself (so a replay stores the same value).  "Stored" means Get returns no error - an EMPTY value is stored too.
+func c09storedValue(k []byte) []byte {
+	sel := 0
+	if len(k) > 1 {
+		sel = int(k[1]) % 3
+	}
+	switch sel {
+	case 0:
+		return []byte{}
+	case 1:
+		return []byte{0x5a}
+	default:
+		return make([]byte, 33)
+	}
+}
+
 type c09node struct {
 	n     *portalwire.VerifONode
 	q     chan *portalwire.ContentElement
@@ -227,16 +244,17 @@ func c09genKeys(c *Ctx, r *c09node, n int, allowNil bool) []c09key {
 			}
 			switch rg.Intn(6) {
 			case 0:
-				r.st.Put(k, id, []byte{1})
+				r.st.Put(k, id, c09storedValue(k))
 				f |= 2
 				c.Count("key_stored")
+				c.Count(fmt.Sprintf("key_stored_len_%d", len(c09storedValue(k))))
 			case 1:
 				r.n.SetTransferring(k)
 				f |= 4
 				c.Count("key_inflight")
 			case 2:
 				if rg.Intn(3) == 0 {
-					r.st.Put(k, id, []byte{1})
+					r.st.Put(k, id, c09storedValue(k))
 					r.n.SetTransferring(k)
 					f |= 6
 				}
@@ -267,6 +285,66 @@ func c09keyList(ks []c09key) [][]byte {
 		l[i] = k.k
 	}
 	return l
+}
+
+// c09nodeFor: a receiver whose identity makes the recorded in-range bits true (in range is a fact of key AND node id; with
+// radius 2^255 it is the top bit of the XOR, so every other identity fits).
+func c09nodeFor(c *Ctx, own []byte, limit, qcap int, keys [][]byte, flags string) *c09node {
+	for try := 0; ; try++ {
+		n := c09newNode(c, own, limit, qcap, 255)
+		ok := true
+		for i, k := range keys {
+			id := c09cid(k)
+			if id == nil || i >= len(flags) {
+				continue
+			}
+			fl, _ := strconv.ParseInt(string(flags[i]), 16, 32)
+			if n.n.P.InRange(id) != (fl&1 != 0) {
+				ok = false
+				break
+			}
+		}
+		if ok || try > 40 {
+			return n
+		}
+		n.n.Stop()
+	}
+}
+
+type c09given struct {
+	keys     [][]byte
+	flags    string
+	contents [][]byte
+}
+
+// c09applyFlags puts receiver r into the per-key state a recorded flags string describes (in-range is a fact of the key).
+func c09applyFlags(r *c09node, keys [][]byte, flags string) []c09key {
+	ks := make([]c09key, len(keys))
+	for i, k := range keys {
+		var fl int64
+		if i < len(flags) {
+			fl, _ = strconv.ParseInt(string(flags[i]), 16, 32)
+		}
+		id := c09cid(k)
+		nf := 0
+		if id == nil {
+			nf = 8
+		} else {
+			if r.n.P.InRange(id) {
+				nf |= 1
+			}
+			if fl&2 != 0 {
+				r.st.Put(k, id, c09storedValue(k))
+				nf |= 2
+			}
+			if fl&4 != 0 {
+				r.n.SetTransferring(k)
+				nf |= 4
+			}
+		}
+		ks[i] = c09key{k, nf}
+	}
+	return ks
 }
 
 // c09ho runs handleOffer on receiver r with h permits held and the queue filled to qfill.
@@ -471,16 +549,44 @@ func c09tamper(mode string, ver int, reply []byte) []byte {
 	return out
 }
 
-func c09e2e(c *Ctx, key *ecdsa.PrivateKey, ownO, ownR []byte, tamper string, nkeys int, kind string) {
+func c09e2e(c *Ctx, key *ecdsa.PrivateKey, ownO, ownR []byte, tamper string, nkeys int, kind string, forceStoredEmpty bool, given *c09given) {
 	O := c09newNode(c, ownO, 50, 8, 255)
-	R := c09newNode(c, ownR, 50, 8, 255)
+	var R *c09node
+	if given != nil {
+		R = c09nodeFor(c, ownR, 50, 8, given.keys, given.flags)
+	} else {
+		R = c09newNode(c, ownR, 50, 8, 255)
+	}
 	defer O.n.Stop()
 	defer R.n.Stop()
-	ks := c09genKeys(c, R, nkeys, false)
+	var ks []c09key
+	if given != nil { // replay: the receiver is put into the state the recorded flags describe
+		ks = c09applyFlags(R, given.keys, given.flags)
+	} else {
+		ks = c09genKeys(c, R, nkeys, false)
+	}
+	if forceStoredEmpty && given == nil { // one more key: in range, stored on the receiver with an EMPTY value (must not be accepted)
+		for i := 0; i < 100000; i++ {
+			k := []byte{0x52, 0, byte(i), byte(i >> 8), 0x52, 0x52}
+			if id := c09cid(k); R.n.P.InRange(id) {
+				R.st.Put(k, id, c09storedValue(k))
+				ks = append(ks, c09key{k, 3})
+				c.Count("e2e_key_stored_empty")
+				break
+			}
+		}
+	}
 	keys := c09keyList(ks)
 	contents := make([][]byte, len(ks))
 	for i := range contents {
 		contents[i] = c.Rng.Bytes(c.Rng.Pick([]int{0, 1, 5, 127, 128, 300, 2000, 20000}))
+		if given != nil && i < len(given.contents) {
+			contents[i] = given.contents[i]
+			if kind == "persist" && len(contents[i]) > 0 {
+				O.st.Put(keys[i], c09cid(keys[i]), contents[i])
+			}
+			continue
+		}
 		if kind == "persist" {
 			if c.Rng.Intn(5) != 0 {
 				O.st.Put(keys[i], c09cid(keys[i]), contents[i])
@@ -585,36 +691,17 @@ func c09replay(c *Ctx, lines []string) {
 		case "po":
 			c09po(c, pool.get(unhx(f[1]), 4, 4), key, f[2], unhx(f[3]), f[4], atoi(f[5]), unhx(f[6]))
 		case "ho":
-			// rebuild the receiver state from the flags
+			// a receiver whose identity fits the recorded in-range bits, put into the state the flags describe
 			keys := unhxl(f[9])
 			flags := f[10]
-			c09ho(c, pool, key, unhx(f[1]), f[2], unhx(f[3]), atoi(f[4]), atoi(f[5]), atoi(f[6]), atoi(f[7]), nil, func(r *c09node) []c09key {
-				ks := make([]c09key, len(keys))
-				for i, k := range keys {
-					fl, _ := strconv.ParseInt(string(flags[i]), 16, 32)
-					id := c09cid(k)
-					nf := 0
-					if id == nil {
-						nf = 8
-					} else {
-						if r.n.P.InRange(id) {
-							nf |= 1
-						}
-						if fl&2 != 0 {
-							r.st.Put(k, id, []byte{1})
-							nf |= 2
-						}
-						if fl&4 != 0 {
-							r.n.SetTransferring(k)
-							nf |= 4
-						}
-					}
-					ks[i] = c09key{k, nf}
-				}
-				return ks
+			own, limit, qcap := unhx(f[1]), atoi(f[4]), atoi(f[6])
+			pool.drop(own, limit, qcap)
+			pool.m[fmt.Sprintf("%x/%d/%d", own, limit, qcap)] = c09nodeFor(c, own, limit, qcap, keys, flags)
+			c09ho(c, pool, key, own, f[2], unhx(f[3]), limit, atoi(f[5]), qcap, atoi(f[7]), nil, func(r *c09node) []c09key {
+				return c09applyFlags(r, keys, flags)
 			})
 		case "e2e":
-			c09e2e(c, key, unhx(f[1]), unhx(f[2]), f[3], len(unhxl(f[5])), f[4])
+			c09e2e(c, key, unhx(f[1]), unhx(f[2]), f[3], len(unhxl(f[5])), f[4], false, &c09given{unhxl(f[5]), f[6], unhxl(f[7])})
 		case "race":
 			c09race(c, key, atoi(f[1]))
 		}
@@ -680,6 +767,27 @@ func runC09(c *Ctx) {
 	c09ho(c, pool, key, []byte{0, 1}, "list", []byte{0}, 0, 0, 4, 0, nil, witness)
 	c09ho(c, pool, key, []byte{0, 1}, "list", []byte{0, 1}, 0, 0, 4, 0, nil, witness)
 	c09ho(c, pool, key, []byte{0, 1}, "list", []byte{0}, 1, 1, 4, 0, nil, witness)
+
+	storedEdge := func(r *c09node) []c09key {
+		var out []c09key
+		for i := 0; len(out) < 3; i++ {
+			if i > 100000 {
+				panic("c09: no in-range key found")
+			}
+			k := []byte{0x51, byte(len(out)), byte(i), byte(i >> 8), 0x51, 0x51} // k[1] = 0,1,2: empty, 1-byte, 33-byte value
+			id := c09cid(k)
+			if !r.n.P.InRange(id) {
+				continue
+			}
+			r.st.Put(k, id, c09storedValue(k))
+			c.Count(fmt.Sprintf("key_stored_len_%d", len(c09storedValue(k))))
+			out = append(out, c09key{k, 3})
+		}
+		return out
+	}
+	for _, pv := range [][]byte{{0}, {0, 1}} {
+		c09ho(c, pool, key, []byte{0, 1}, "list", pv, 2, 0, 4, 0, nil, storedEdge)
+	}
 
 	pvs := []struct {
 		kind string
@@ -815,7 +923,10 @@ func runC09(c *Ctx) {
 		}
 		tamper := []string{"none", "none", "none", "acceptall", "declinefirst"}[rg.Intn(5)]
 		kind := []string{"transient", "transient", "persist"}[rg.Intn(3)]
-		c09e2e(c, key, ownO, ownR, tamper, rg.Pick([]int{1, 2, 3, 5, 9, 17}), kind)
+		if i < 2 { // one live transfer per version with a stored-empty key among fresh ones
+			ownO, ownR, tamper = [][]byte{{0}, {0, 1}}[i], []byte{0, 1}, "none"
+		}
+		c09e2e(c, key, ownO, ownR, tamper, rg.Pick([]int{1, 2, 3, 5, 9, 17}), kind, i < 2, nil)
 	}
 	for i := 0; i < 6; i++ {
 		c09race(c, key, 1+rg.Intn(3))
